@@ -79,15 +79,48 @@ func c08online(c *rig.Ctx) {
 	const db = "onl"
 	sleep := 80 * time.Millisecond
 
+	// Schedules: "all" stretches every phase while the writers run freely; "quiet-after-mark" lets the writers run until the
+	// end of the new-generation pass's gc.afterMark window and then parks them until dolt_gc returns (what they wrote is only
+	// known through the addresses drained by readAndResetNewGenToVisit); "only-before-finalize" parks them before the
+	// collection and lets them run only inside the new-generation pass's gc.beforeFinalize window (what they write is only
+	// known through the addresses handed over at finalize).
+	gt := &gate{}
+	var sched atomic.Value
+	sched.Store("all")
+	var hits sync.Map // point -> *atomic.Int64, reset per round
+	hitOf := func(pt string) int64 {
+		v, _ := hits.LoadOrStore(pt, new(atomic.Int64))
+		return v.(*atomic.Int64).Add(1)
+	}
+	record := func(pt string, t0 int64) {
+		t1 := rig.Mono()
+		led.mu.Lock()
+		led.wins = append(led.wins, window{pt, t0, t1})
+		led.mu.Unlock()
+	}
 	for _, pt := range gcPoints {
 		pt := pt
 		verifhook.Set(pt, verifhook.Action{Kind: "func", Fn: func(string, int64) error {
+			h := hitOf(pt)
 			t0 := rig.Mono()
-			time.Sleep(sleep)
-			t1 := rig.Mono()
-			led.mu.Lock()
-			led.wins = append(led.wins, window{pt, t0, t1})
-			led.mu.Unlock()
+			switch sched.Load().(string) {
+			case "all":
+				time.Sleep(sleep)
+				record(pt, t0)
+			case "quiet-after-mark":
+				if pt == "gc.afterMark" && h == 2 {
+					time.Sleep(2 * sleep)
+					record(pt, t0)
+					gt.pause()
+				}
+			case "only-before-finalize":
+				if pt == "gc.beforeFinalize" && h == 2 {
+					gt.resume()
+					time.Sleep(2 * sleep)
+					record(pt, t0)
+					gt.pause()
+				}
+			}
 			return nil
 		}})
 	}
@@ -140,7 +173,13 @@ func c08online(c *rig.Ctx) {
 				x.Close()
 			}
 		}()
+		gt.enter()
+		defer gt.leave()
 		for !stop.Load() {
+			gt.wait(stop)
+			if stop.Load() {
+				break
+			}
 			sq := seq[i].Add(1)
 			pk := int64(i)*1_000_000 + sq
 			o := wop{Writer: i, PK: pk, T0: rig.Mono()}
@@ -302,7 +341,7 @@ func c08online(c *rig.Ctx) {
 	}
 
 	specsSession := []gcSpec{{Mode: "default", Archive: 1}, {Mode: "full", Archive: 0}, {Mode: "shallow"}, {Mode: "default", Archive: 0}, {Mode: "full", Archive: 1}}
-	roundsA, roundsB := c.Pick(3, 30), c.Pick(2, 20)
+	roundsA, roundsB := c.Pick(4, 45), c.Pick(3, 30)
 	round := 0
 	phase := func(s *sqlrig.Server, n int, kill bool) {
 		var stop atomic.Bool
@@ -313,13 +352,19 @@ func c08online(c *rig.Ctx) {
 		}
 		for k := 0; k < n; k++ {
 			g := specsSession[(round+int(c.Seed))%len(specsSession)]
-			if kill && g.Mode == "shallow" {
+			sc := []string{"all", "quiet-after-mark", "only-before-finalize"}[round%3]
+			if (kill || sc != "all") && g.Mode == "shallow" {
 				g = gcSpec{Mode: "default", Archive: 1}
 			}
 			g.Kill = kill
 			round++
-			c.Case(fmt.Sprintf("c08/online/round%d", round), map[string]any{"gc": g, "writers": W})
+			c.Case(fmt.Sprintf("c08/online/round%d", round), map[string]any{"gc": g, "writers": W, "schedule": sc})
+			hits.Range(func(k, _ any) bool { hits.Delete(k); return true })
 			time.Sleep(150 * time.Millisecond) // let the writers produce novelty
+			sched.Store(sc)
+			if sc == "only-before-finalize" {
+				gt.pause()
+			}
 			x, err := s.Open(db)
 			if err != nil {
 				c.Note("collector cannot connect: " + err.Error())
@@ -343,6 +388,8 @@ func c08online(c *rig.Ctx) {
 			g0 := rig.Mono()
 			_, err = x.Query(g.call())
 			g1 := rig.Mono()
+			sched.Store("all")
+			gt.resume()
 			x.Close()
 			if err != nil {
 				tl.inc("c08.online_gc_errors")
@@ -351,6 +398,7 @@ func c08online(c *rig.Ctx) {
 			}
 			tl.inc("c08.online_gc_runs")
 			tl.inc("c08.online_gc_runs." + g.String())
+			tl.inc("c08.online_gc_runs.schedule." + sc)
 			if probe != "" {
 				if ddb, err := s.OpenDoltDB(db); err == nil {
 					if ok, _ := ddb.Has(context.Background(), hash.Parse(probe)); !ok {
@@ -379,11 +427,13 @@ func c08online(c *rig.Ctx) {
 				}
 			}
 			if anyPhase {
-				c.Distinct("c08o/" + g.String())
+				c.Distinct("c08o/" + sc + "/" + g.String())
+				tl.inc("c08.online_rounds_with_overlap." + sc)
 			}
 			verify(s, fmt.Sprintf("after online collection %d (%s)", round, g), g1)
 		}
 		stop.Store(true)
+		gt.resume()
 		wg.Wait()
 		verify(s, "after the writers stopped", rig.Mono())
 		closure(s, "after the writers stopped")
@@ -444,7 +494,59 @@ func c08online(c *rig.Ctx) {
 	tl.flush(c)
 	c.Require(tl.get("c08.online_gc_runs") >= 2, "fewer than two online collections completed")
 	c.Require(tl.get("c08.online_gc_runs_collected_garbage") > 0, "no online collection collected the garbage probe")
+	c.Require(tl.get("c08.online_rounds_with_overlap.quiet-after-mark") > 0, "no round in which writers committed only until the end of the mark phase")
+	c.Require(tl.get("c08.online_rounds_with_overlap.only-before-finalize") > 0, "no round in which writers committed only between drain and finalize")
 	for _, pt := range gcPoints {
 		c.Require(tl.get("c08.commits_overlapping."+pt) > 0, "no acknowledged writer commit overlapped phase "+pt)
 	}
+}
+
+// gate parks the writers on request of the collector / a GC hook.
+type gate struct {
+	mu      sync.Mutex
+	paused  bool
+	parked  int
+	writers int
+}
+
+func (g *gate) enter() { g.mu.Lock(); g.writers++; g.mu.Unlock() }
+func (g *gate) leave() { g.mu.Lock(); g.writers--; g.mu.Unlock() }
+
+// wait parks the calling writer while the gate is paused.
+func (g *gate) wait(stop *atomic.Bool) {
+	g.mu.Lock()
+	if !g.paused {
+		g.mu.Unlock()
+		return
+	}
+	g.parked++
+	for g.paused && !stop.Load() {
+		g.mu.Unlock()
+		time.Sleep(time.Millisecond)
+		g.mu.Lock()
+	}
+	g.parked--
+	g.mu.Unlock()
+}
+
+// pause closes the gate and waits (bounded) until every running writer is parked.
+func (g *gate) pause() {
+	g.mu.Lock()
+	g.paused = true
+	g.mu.Unlock()
+	for k := 0; k < 5000; k++ {
+		g.mu.Lock()
+		done := g.parked >= g.writers
+		g.mu.Unlock()
+		if done {
+			return
+		}
+		time.Sleep(time.Millisecond)
+	}
+}
+
+func (g *gate) resume() {
+	g.mu.Lock()
+	g.paused = false
+	g.mu.Unlock()
 }
